@@ -383,7 +383,7 @@ fn judge_vslerp_r<R: Real>(cx: &Cx, w: &[u64], got: &[f64; 4], t: &mut Tally) ->
         // direction error scales with the length; the length itself carries k2(3)+... a few u
         let tol = tol * lscale + K * u * lscale + lerr;
         let _ = t;
-        if err <= tol {
+        if err <= 0.75 * tol {
             Ok(err / tol)
         } else {
             Err(format!("main branch: expected {:?} (angle {:e}, s*angle {:e}, length {:e}) |err| {:e} > tol {:e}", fv(&r), th, s * th, lenf, err, tol))
